@@ -1,15 +1,7 @@
 SPECIFICATION Spec
 CONSTANTS
   Dev = "client-unoffered"
-  MaxOps = 0
-  Acts = {}
-  CloseBodies = {}
-  Payloads = {}
-  DataKinds = {}
-  ReadModes = {}
-  HandlerSets <- HDefault
-  Limits = {0}
-  Zs = {FALSE}
+  Configs <- ConfigsNeg
   NegSet <- NegAll
 INVARIANTS NegotiatedProtocolOffered
 CHECK_DEADLOCK FALSE
